@@ -1,2 +1,6 @@
 import PanqecVerif.Model.Bits
 import PanqecVerif.Model.Code
+import PanqecVerif.Model.Sim
+import PanqecVerif.Proofs.Sim
+import PanqecVerif.Proofs.SimDist
+import PanqecVerif.Properties.C11
